@@ -628,6 +628,57 @@ def w_hier(job):
     return sh.result()
 
 
+def w_disk_changes(job):
+    """project files deleted / renamed between requests on one long-lived project (an ordinary editing step): the calls stay total"""
+    import itertools
+    import shutil
+    import tempfile
+    from supp.project import Project
+    sh = Shard()
+    texts = [('from pkg.mod import f\nf', (2, 1)), ('import pkg\npkg.', (2, 4)), ('from pkg import *\nf', (2, 1)), ('import pkg.mod\npkg.mod.f', (2, 9)),
+             ('from pkg import mod as m\nm.', (2, 2)), ('import single\nsingle.v', (2, 8)), ('from pkg.', (1, 9)), ('import ', (1, 7))]
+    changes = ['rm-pkg', 'rm-mod', 'rm-single', 'rename-pkg', 'rm-init']
+    cases = list(itertools.product(range(len(texts)), changes, range(len(texts))))
+    for i, (a, change, b) in enumerate(cases):
+        if i % 2 != job:
+            continue
+        root = tempfile.mkdtemp(prefix='c08d_')
+        try:
+            os.makedirs(os.path.join(root, 'pkg'))
+            for rel, src in (('pkg/__init__.py', 'from .mod import f\n'), ('pkg/mod.py', 'def f():\n    return 1\n'), ('single.py', 'v = 1\n')):
+                with open(os.path.join(root, rel), 'w') as f:
+                    f.write(src)
+            project = Project([root])
+            fn = os.path.join(root, 'buffer.py')
+            seq = [('before', texts[a])]
+            for label, (src, pos) in seq:
+                for which in ('assist', 'location'):
+                    check_cursor(project, which, src, pos, fn)
+                check_lint(project, src + '\n', fn)
+            if change == 'rm-pkg':
+                shutil.rmtree(os.path.join(root, 'pkg'))
+            elif change == 'rm-mod':
+                os.remove(os.path.join(root, 'pkg', 'mod.py'))
+            elif change == 'rm-single':
+                os.remove(os.path.join(root, 'single.py'))
+            elif change == 'rename-pkg':
+                os.rename(os.path.join(root, 'pkg'), os.path.join(root, 'pkg_old'))
+            else:
+                os.remove(os.path.join(root, 'pkg', '__init__.py'))
+            src, pos = texts[b]
+            sh.case((a, change, b), True, {'entry': 'disk-change', 'first': texts[a][0], 'change': change, 'then': src})
+            sh.count('disk-change-sequences')
+            for which in ('assist', 'location', 'lint'):
+                prob, cls = check_cursor(project, which, src, pos, fn) if which != 'lint' else check_lint(project, src + '\n', fn)
+                sh.count('%s:%s' % (which, cls))
+                if prob and (prob[0] + ':after-disk-change') not in [v['signature'] for v in sh.violations]:
+                    sh.violation(prob[0] + ':after-disk-change', {'entry': 'disk-change', 'seq': [a, change, b]},
+                                 'after %r, then %s, %s on %r: %s' % (texts[a][0], change, which, src, prob[1].replace(root, '<root>')))
+        finally:
+            shutil.rmtree(root, ignore_errors=True)
+    return sh.result()
+
+
 def w_programs(job):
     from hypothesis import strategies as st
     from vlib.gen.programs import programs
@@ -779,6 +830,7 @@ def run(run):
     run.pmap(w_cyclic, [(i, core.derive_seed(run.seed, 'c08c', i), run.pick(40, 600)) for i in range(4)])
     run.pmap(w_programs, [(i, core.derive_seed(run.seed, 'c08p', i), run.pick(30, 600)) for i in range(12)])
     run.pmap(w_hier, [(i, core.derive_seed(run.seed, 'c08h', i), run.pick(40, 800)) for i in range(8)])
+    run.pmap(w_disk_changes, [0, 1])
     run.pmap(w_sequences, [(core.derive_seed(run.seed, 'c08q', i), sz) for i, sz in enumerate(run.pick([[60, 130], [250], [420]], [[60, 130, 90], [250, 300], [420, 700], [1000], [1500], [2500]]))])
     run.extra['timeouts_inconclusive'] = sum(v for k, v in run.counters.items() if k.endswith(':timeout'))
     if not run.quick:
@@ -786,6 +838,13 @@ def run(run):
 
 
 def replay(case):
+    if case.get('entry') == 'disk-change':
+        out = []
+        for job in (0, 1):
+            for v in w_disk_changes(job)['violations']:
+                if v['case'].get('seq') == case.get('seq') or not out:
+                    out.append({'signature': v['signature'], 'case': v['case'], 'detail': v['detail']})
+        return out[:3]
     if case.get('entry') == 'hierarchy-history':
         return [{'signature': sig + ':project-history', 'case': case, 'detail': detail} for sig, detail in run_hier(case['hierarchy'], case['order'])]
     project = suppview.project()
